@@ -79,10 +79,18 @@ def pretty_node_tc(value, ctx, trailing_comment=None):
 _registered = [False]
 
 
+def pretty_by_predicate(value, ctx):
+    return 'PRINTED_BY_PREDICATE'
+
+
 def register():
     if not _registered[0]:
         PP.register_pretty(Node)(pretty_node)
         PP.register_pretty(NodeTC)(pretty_node_tc)
+        # a predicate-registered printer that would also accept the nodes
+        # (predicates are only consulted for unregistered types: it must never
+        # be used for a Node, failing or not)
+        PP.register_pretty(predicate=lambda v: isinstance(v, Node))(pretty_by_predicate)
         _registered[0] = True
 
 
@@ -345,10 +353,17 @@ class BadReturnCase(base.CaseBase):
         return 0 <= what and what <= 4 and 0 <= nest and nest <= 2
 
     def run(self, what, nest):
-        v = BadReturn(what)
+        inner = BadReturn(what)
+        v = inner
         for j in range(2):
             if nest > j:
                 v = [v]
+        ok = self.first_print(v, what, nest)
+        if ok is not True:
+            return ok
+        return self.after(v, inner)
+
+    def first_print(self, v, what, nest):
         try:
             with warnings.catch_warnings(record=True) as wlist:
                 warnings.simplefilter('always')
@@ -371,6 +386,31 @@ class BadReturnCase(base.CaseBase):
             return self.fail('C14:bad-return-not-ValueError', lambda: repr(e))
         if what != 4:
             return self.fail('C14:bad-return-not-reported', lambda: text)
+        return True
+
+    def after(self, v, inner):
+        """later calls are unaffected by an earlier failure: the same objects,
+        with the printer behaving, print normally"""
+        inner.what = 4
+        try:
+            with warnings.catch_warnings(record=True) as wl:
+                warnings.simplefilter('always')
+                if self.native:
+                    again = PKG.pformat(v)
+                else:
+                    with NoTracing():
+                        again = PKG.pformat(v)
+        except Exception as e:
+            return self.fail('C14:later-call-raises', lambda: repr(e))
+        want = 'fine'
+        x = v
+        depth = 0
+        while isinstance(x, list):
+            x = x[0]
+            depth += 1
+        want = '[' * depth + "fine" + ']' * depth
+        if again != want or wl:
+            return self.fail('C14:later-call-affected', lambda: '%r instead of %r' % (again, want))
         return True
 
     def run_native(self, args):
